@@ -217,6 +217,60 @@ def slice_len(b, at, e, depth=0):
     return None
 
 
+def exact_len_conversion(crate, b, e, depth=0):
+    """`e` is a conversion of a byte slice into `[u8; N]` / `&[u8; N]` that succeeds exactly when the slice has N
+    elements (`try_into`, `<[u8; N]>::try_from`, either followed by `.ok()`, or a helper added by a later change whose
+    whole body is such a conversion of its parameter): returns the slice expression, else None."""
+    e = _peel(e)
+    if e is None or depth > 3:
+        return None
+    k = e.get("k")
+    if k == "Block" and not e.get("stmts") and e.get("expr"):
+        return exact_len_conversion(crate, b, e["expr"], depth)
+    if k == "MethodCall" and e.get("name") == "ok" and (e.get("callee") or "").endswith("Result::ok"):
+        return exact_len_conversion(crate, b, e.get("recv"), depth)
+    src = None
+    if k == "MethodCall" and e.get("name") == "try_into":
+        src = e.get("recv")
+    elif k == "Call" and (e.get("callee") or "").endswith("::try_from") and len(e.get("args") or []) == 1:
+        src = e["args"][0]
+    if src is not None:
+        import re as _re
+        sty = ((_peel(src) or {}).get("ty") or src.get("ty") or "").replace("&", "").replace("mut ", "").strip()
+        if sty in ("[u8]", "std::vec::Vec<u8>", "Vec<u8>") and _re.search(r"\[u8; \w+\]", e.get("ty") or ""):
+            return src
+        return None
+    if k == "Call" and common.facts_norm(e.get("callee") or "") in crate.bodies and common.facts_norm(e.get("callee") or "") not in known_fns(crate.name):
+        hb = crate.bodies[common.facts_norm(e["callee"])]
+        inner = _peel(exact_len_conversion(crate, hb, hb.get("hir"), depth + 1)) if hb.get("hir") else None
+        if inner and inner.get("k") == "Path" and inner.get("res") == "local":
+            for i_, p_ in enumerate(hb.get("params", [])):
+                if p_.get("k") == "Binding" and p_.get("hid") == inner.get("hid") and not p_.get("mut") and i_ < len(e.get("args") or []):
+                    return e["args"][i_]
+    return None
+
+
+def exact_len_unwraps(crate, bn):
+    """every `unwrap()` / `expect()` of the body is applied to an exact-length conversion of a slice whose length is, on
+    that path, the array length asked for"""
+    import re as _re
+    b = crate.bodies.get(bn) or {}
+    if "hir" not in b and "::{closure" in bn:
+        b = crate.bodies.get(bn.split("::{closure")[0]) or {}
+    if "hir" not in b:
+        return False
+    n_ = 0
+    for node in common.hir_walk(b["hir"]):
+        if node.get("k") == "MethodCall" and node.get("name") in ("unwrap", "expect") and (node.get("callee") or "").endswith(("Option::unwrap", "Option::expect", "Result::unwrap", "Result::expect")):
+            n_ += 1
+            r = node.get("recv")
+            m = _re.search(r"\[u8; (\d+)\]", (r or {}).get("ty") or "")
+            src = exact_len_conversion(crate, b, r)
+            if not m or src is None or slice_len(b, node, src) != int(m.group(1)):
+                return False
+    return n_ > 0
+
+
 def _body_hir(crate, bn):
     b = crate.bodies.get(bn) or {}
     if "hir" not in b and "::{closure" in bn:
@@ -411,6 +465,10 @@ def audit(cfg, crate, cname, rep):
             continue
         if ent is None and key[2] == "assert:Overflow(Mul)" and all(len_times_small(crate, bn, 1) for bn in sorted({t_[3] for t_ in by_body.get(key, [])})):
             rep.ob("C10.audit", k + "|len-times-constant", True, "overflow check of `<buffer>.len() * c` with c <= 8: an in-memory buffer is far shorter than usize::MAX / 8")
+            continue
+        if ent is None and key[2] in ("call:Option::unwrap", "call:Option::expect", "call:Result::unwrap", "call:Result::expect") \
+                and all(exact_len_unwraps(crate, bn) for bn in sorted({t_[3] for t_ in by_body.get(key, [])})):
+            rep.ob("C10.audit", k + "|exact-length-conversion", True, "every unwrap of the function is applied to a slice-to-array conversion of a slice whose length is fixed to the array length on that path")
             continue
         def _finite():
             return finite_discharge(crate, key[1], sorted({t_[3] for t_ in by_body.get(key, [])}), key[2])
@@ -627,12 +685,14 @@ def mechanised(cfg, crate, key, cls, ts):
         private = adt is not None and all(f["vis"] != "pub" for f in adt["variants"][0]["fields"])
         return (compared == statics and neg and private and len(statics) >= 7), "compared %d of %d statics; fields private: %s" % (len(compared & statics), len(statics), private)
     if cls == "guarded-len":
+        if cons in ("call:Result::unwrap", "call:Option::unwrap") and not exact_len_unwraps(crate, fn):
+            return False, "an unwrap of the function is not applied to a slice-to-array conversion of a slice whose length is, on that path, the array length"
         I = Interp(crate)
         I.run_fn(fn)
         ok = True
         cnt = 0
         for c, a, n, cnd, f in I.calls:
-            if f == fn and (c.endswith("Result::unwrap") or c.endswith("::index") or "Index::index" in c):
+            if f == fn and (c.endswith(("Result::unwrap", "Option::unwrap")) or c.endswith("::index") or "Index::index" in c):
                 cnt += 1
                 lens = [x for x in F.atoms(cnd) if x[0] == "eq" and "len(" in str(x[1]) and x[2] in ("8", "32", 8, 32)]
                 if not lens:
